@@ -4,17 +4,25 @@
 (* set of sinks it passes (enabled at call time, level within the per-module or default threshold);      *)
 (* every record that appears in a sink must be the next not-yet-delivered passing call of its thread,    *)
 (* with every field intact and the text cut to exactly the configured maximum.                            *)
+(* A sink may be disabled while log calls are in flight: the linearization point of a call with respect  *)
+(* to a sink is its dispatch to that sink under the library's global lock ("front" event, recorded by a  *)
+(* subclass hook of every sink).  A call that began and returned while the sink was enabled must be      *)
+(* dispatched to it; a call that overlaps disable() may or may not be; every dispatched call must be in  *)
+(* the sink when disable() returns, and nothing that was not dispatched ever is.                          *)
 EXTENDS Integers, Sequences, FiniteSets, TLC
 CONSTANTS Sinks, Threads
 
 VARIABLES cfg,      \* cfg[s] = [en |-> BOOLEAN, def |-> level, mods |-> sequence of [m, l]]
+          closing,  \* closing[s]: disable() of s has been called and has not returned yet
+          inflight, \* inflight[th]: the last call of th has not returned yet
           maxLen,   \* LogSetMaxLength
           calls,    \* calls[th]: sequence of call records (ghost)
           nextIx,   \* nextIx[s][th]: index of the first call of th not yet considered for sink s
           lastFile  \* lastFile[s]: file index of the last record read back (file sink)
-dvars == <<cfg, maxLen, calls, nextIx, lastFile>>
+dvars == <<cfg, closing, inflight, maxLen, calls, nextIx, lastFile>>
 
 DInit == /\ cfg = [s \in Sinks |-> [en |-> FALSE, def |-> 0, mods |-> <<>>]] /\ maxLen = 0
+         /\ closing = [s \in Sinks |-> FALSE] /\ inflight = [t \in Threads |-> FALSE]
          /\ calls = [t \in Threads |-> <<>>] /\ nextIx = [s \in Sinks |-> [t \in Threads |-> 1]] /\ lastFile = [s \in Sinks |-> 0]
 
 Min(a, b) == IF a < b THEN a ELSE b
@@ -30,16 +38,30 @@ ExpectedHead(th, seq, n) == [i \in 1..Min(n, 12) |-> IF i <= 9 THEN Tag(th, seq)
 
 DConfig(mx, sinks) ==      \* quiescent point: thresholds and the maximum length change only here
   /\ maxLen' = mx /\ cfg' = [s \in Sinks |-> [en |-> cfg[s].en, def |-> sinks[s].def, mods |-> sinks[s].mods]]
-  /\ UNCHANGED <<calls, nextIx, lastFile>>
-DEnable(s) == /\ ~cfg[s].en /\ cfg' = [cfg EXCEPT ![s].en = TRUE]
-              /\ nextIx' = [nextIx EXCEPT ![s] = [t \in Threads |-> Len(calls[t]) + 1]] /\ UNCHANGED <<maxLen, calls, lastFile>>
+  /\ \A t \in Threads : ~inflight[t]
+  /\ UNCHANGED <<closing, inflight, calls, nextIx, lastFile>>
+DEnable(s) == /\ ~cfg[s].en /\ cfg' = [cfg EXCEPT ![s].en = TRUE] /\ \A t \in Threads : ~inflight[t]
+              /\ nextIx' = [nextIx EXCEPT ![s] = [t \in Threads |-> Len(calls[t]) + 1]] /\ UNCHANGED <<closing, inflight, maxLen, calls, lastFile>>
+\* must: sinks the call has to reach; may: sinks it may reach (their disable() overlaps the call); front: sinks it was dispatched to
 DCall(th, seq, lvl, m, fn, file, line, len) ==
-  /\ seq = Len(calls[th]) + 1
-  /\ calls' = [calls EXCEPT ![th] = Append(@, [lvl |-> ClampLevel(lvl), m |-> m, fn |-> fn, file |-> file, line |-> line, len |-> len,
-                                                  max |-> maxLen, pass |-> {s \in Sinks : Passes(s, ClampLevel(lvl), m)}])]
-  /\ UNCHANGED <<cfg, maxLen, nextIx, lastFile>>
-\* index of the next call of th that passes sink s (0 if none)
-NextPassing(s, th) == LET I == {i \in nextIx[s][th]..Len(calls[th]) : s \in calls[th][i].pass} IN
+  /\ seq = Len(calls[th]) + 1 /\ ~inflight[th] /\ inflight' = [inflight EXCEPT ![th] = TRUE]
+  /\ LET P == {s \in Sinks : Passes(s, ClampLevel(lvl), m)} IN
+     calls' = [calls EXCEPT ![th] = Append(@, [lvl |-> ClampLevel(lvl), m |-> m, fn |-> fn, file |-> file, line |-> line, len |-> len, max |-> maxLen,
+                                                must |-> {s \in P : ~closing[s]}, may |-> {s \in P : closing[s]}, front |-> {}])]
+  /\ UNCHANGED <<cfg, closing, maxLen, nextIx, lastFile>>
+\* the call is handed to sink s (Sink::handleLog passed the filter; under the global lock of the log front end)
+DFront(s, th) ==
+  /\ inflight[th]
+  /\ LET i == Len(calls[th]) IN
+       /\ s \in calls[th][i].must \cup calls[th][i].may /\ s \notin calls[th][i].front           \* only calls that pass, once
+       /\ calls' = [calls EXCEPT ![th][i].front = @ \cup {s}]
+  /\ UNCHANGED <<cfg, closing, inflight, maxLen, nextIx, lastFile>>
+DRet(th) ==
+  /\ inflight[th] /\ inflight' = [inflight EXCEPT ![th] = FALSE]
+  /\ LET c == calls[th][Len(calls[th])] IN c.must \subseteq c.front                                \* reached every sink it had to reach
+  /\ UNCHANGED <<cfg, closing, maxLen, calls, nextIx, lastFile>>
+\* index of the next call of th that was dispatched to sink s and is not yet seen in it (0 if none)
+NextPassing(s, th) == LET I == {i \in nextIx[s][th]..Len(calls[th]) : s \in calls[th][i].front} IN
                       IF I = {} THEN 0 ELSE CHOOSE i \in I : \A j \in I : i <= j
 LevelCode(l) == <<70, 69, 87, 78, 73, 73, 68, 84>>[l + 1]     \* F E W N I I D T
 DGot(s, th, lvl, lvlc, m, fn, file, line, len, trunc, head, padOk, tsOk, fi) ==
@@ -51,8 +73,16 @@ DGot(s, th, lvl, lvlc, m, fn, file, line, len, trunc, head, padOk, tsOk, fi) ==
        /\ head = ExpectedHead(th, i, len) /\ padOk /\ tsOk
   /\ fi >= lastFile[s] /\ lastFile' = [lastFile EXCEPT ![s] = fi]
   /\ nextIx' = [nextIx EXCEPT ![s][th] = i + 1]
-  /\ UNCHANGED <<cfg, maxLen, calls>>
-DDisabled(s) ==            \* disable() has returned: every passing call made so far is in the sink
-  /\ cfg[s].en /\ \A th \in Threads : NextPassing(s, th) = 0
-  /\ cfg' = [cfg EXCEPT ![s].en = FALSE] /\ UNCHANGED <<maxLen, calls, nextIx, lastFile>>
+  /\ UNCHANGED <<cfg, closing, inflight, maxLen, calls>>
+\* disable() is called: calls in flight that have not been dispatched to s yet may or may not reach it
+DDisableBegin(s) ==
+  /\ cfg[s].en /\ ~closing[s] /\ closing' = [closing EXCEPT ![s] = TRUE]
+  /\ calls' = [t \in Threads |-> IF inflight[t] /\ s \in calls[t][Len(calls[t])].must \ calls[t][Len(calls[t])].front
+                                  THEN [calls[t] EXCEPT ![Len(calls[t])].must = @ \ {s}, ![Len(calls[t])].may = @ \cup {s}]
+                                  ELSE calls[t]]
+  /\ UNCHANGED <<cfg, inflight, maxLen, nextIx, lastFile>>
+DDisabled(s) ==            \* disable() has returned: every call dispatched to the sink is in it
+  /\ cfg[s].en /\ closing[s] /\ \A th \in Threads : NextPassing(s, th) = 0
+  /\ cfg' = [cfg EXCEPT ![s].en = FALSE] /\ closing' = [closing EXCEPT ![s] = FALSE]
+  /\ UNCHANGED <<inflight, maxLen, calls, nextIx, lastFile>>
 =============================================================================
